@@ -20,6 +20,7 @@ import datetime
 import enum
 import hashlib
 import json
+import itertools
 import os
 import random
 import threading
@@ -1095,6 +1096,115 @@ def undisciplined(chk: core.Check) -> list[dict[str, Any]]:
     return bad
 
 
+# ---- directed scenarios ------------------------------------------------------------------------------
+def constrained_best(chk: core.Check, cfgs: list[str]) -> None:
+    """`Study.best_trial` of a CONSTRAINED single-objective study whose best-valued trial is infeasible (the
+    fallback path picks a feasible trial out of get_trials(deepcopy=False)): the result is a deep copy like every
+    other result of the Study API - scribbling into it must not change what the study returns afterwards."""
+    from optuna.samplers._base import _CONSTRAINTS_KEY
+
+    for cfg in cfgs:
+        h = fleet.make(cfg, chk.tmp)
+        try:
+            name = "cb%d_%d" % (os.getpid(), next(_SCEN))
+            study = optuna.create_study(storage=h.storage, study_name=name, direction=chk.rng.choice(["minimize", "maximize"]))
+            sign = 1.0 if study.direction == StudyDirection.MINIMIZE else -1.0
+            plan = [(0.0, [1.0]), (1.0, [-1.0]), (2.0, [0.0]), (0.5, [2.0, -1.0]), (3.0, None)]
+            chk.rng.shuffle(plan)
+            for v, cons in plan:
+                t = study.ask()
+                t.suggest_float("x", 0, 1)
+                t.set_user_attr("u", [v])
+                if cons is not None:
+                    study._storage.set_trial_system_attr(t._trial_id, _CONSTRAINTS_KEY, cons)
+                study.tell(t, sign * v)
+
+            def view() -> Any:
+                return {"trials": canon(study.get_trials(deepcopy=False)), "storage": canon(h.storage.get_all_trials(study._study_id, deepcopy=False)),
+                        "best": canon(study.best_trial)}
+
+            before = view()
+            got = study.best_trial
+            feasible_best = [t for t in study.get_trials(deepcopy=False) if t.value == sign * 1.0]
+            chk.case({"part": "constrained-best", "cfg": cfg}, nontrivial=True)
+            chk.count("constrained-best:" + cfg)
+            if not feasible_best or got.number != feasible_best[0].number:
+                chk.count("constrained-best:fallback-not-taken")
+            scribble(got)
+            after = view()
+            if before != after:
+                chk.violation({"kind": "deepcopy-not-independent", "getter": "study.best_trial", "path": "constrained-fallback"},
+                              {"part": "constrained-best", "cfg": cfg, "plan": plan},
+                              "[%s] writing into the trial returned by study.best_trial (constrained study, best-valued trial infeasible) changed what the study returns: %s" % (
+                                  cfg, first_diff(before, after)[:300]))
+                return
+        finally:
+            h.close()
+
+
+def journal_rejected_batch(chk: core.Check, n: int) -> None:
+    """Two JournalStorage workers on one log.  Worker A issues writes that replay REJECTS (finished trial, duplicate
+    study name) while records of worker B about the same trials sit earlier in the same batch; objects A has read are
+    held, B writes on, A syncs: no held object may change (a replay that updates 'its own private copies' in place must
+    not forget, after a rejected record, which copies readers already hold)."""
+    r = chk.rng
+    for it in range(n):
+        h = fleet.make("journal-symlink", chk.tmp)
+        try:
+            a, b = h.storage, h.peer()
+            sid = a.create_new_study([StudyDirection.MINIMIZE], "jr%d_%d" % (os.getpid(), next(_SCEN)))
+            tids = [a.create_new_trial(sid) for _ in range(r.randint(2, 4))]
+            done = tids[0]
+            a.set_trial_state_values(done, TrialState.COMPLETE, [1.0])
+            held: list[tuple[str, Any, Any]] = []
+
+            def hold(label: str, obj: Any) -> None:
+                held.append((label, obj, safe_canon(obj)))
+
+            script: list[float] = []
+            if it % 2 == 0:
+                # the shortest history of the kind: B writes about t, A's rejected write lands in the same batch, A reads t
+                # (nothing pending), B writes about t again, A syncs
+                script = [0.1, 0.4, 0.7, 0.1, 0.9]
+            t_fixed = r.choice(tids[1:])
+            for step in range(len(script) + r.randint(6, 14)):
+                k = script[step] if step < len(script) else r.random()
+                t = t_fixed if step < len(script) else r.choice(tids[1:])
+                try:
+                    if k < 0.3:     # B writes about a live trial (these records reach A inside its next batch)
+                        r.choice([lambda: b.set_trial_user_attr(t, "k%d" % r.randrange(3), step),
+                                  lambda: b.set_trial_intermediate_value(t, r.randrange(4), float(step)),
+                                  lambda: b.set_trial_system_attr(t, "s", step),
+                                  lambda: b.set_trial_param(t, "x", 0.25, FloatDistribution(0, 1))])()
+                    elif k < 0.55:  # A issues a write that replay rejects
+                        r.choice([lambda: a.set_trial_user_attr(done, "late", 1),
+                                  lambda: a.create_new_study([StudyDirection.MINIMIZE], a.get_study_name_from_id(sid)),
+                                  lambda: a.set_trial_param(t, "x", 1.0, optuna.distributions.CategoricalDistribution([1.0, 2.0])),
+                                  lambda: a.set_trial_state_values(done, TrialState.FAIL)])()
+                    elif k < 0.8:   # A reads and keeps what it got
+                        hold("get_trial", a.get_trial(t))
+                        hold("get_all_trials", a.get_all_trials(sid, deepcopy=False))
+                    else:           # A syncs without writing
+                        a.get_all_trials(sid, deepcopy=False)
+                except Exception:  # noqa: BLE001 - the rejections are the point
+                    pass
+                for label, obj, snap in held:
+                    now = safe_canon(obj)
+                    if now != snap:
+                        chk.violation({"kind": "snapshot-changed", "getter": "s." + label, "scenario": "journal-rejected-batch"},
+                                      {"part": "journal-rejected-batch", "iteration": it, "seed": chk.seed},
+                                      "[journal, two workers] the object returned by %s changed after a later sync (a rejected write of this worker sat in an earlier batch): %s" % (
+                                          label, first_diff(snap, now)[:300]))
+                        return
+            chk.case({"part": "journal-rejected-batch", "it": it}, nontrivial=True)
+            chk.count("journal-rejected-batch")
+        finally:
+            h.close()
+
+
+_SCEN = itertools.count()
+
+
 def search(chk: core.Check) -> None:
     """Failing-input search after a breakage: the matrix is exhaustive already; add deeper random histories and threads."""
     chk.search_log.append("search: more and longer histories on every backend (the getter x setter matrix ran in the main phase)")
@@ -1114,6 +1224,8 @@ def main(chk: core.Check) -> int:
                             "methods": [{"name": b["name"], "body": b["body"]} for b in bad][:12]})
     cfgs = fleet.QUICK if quick else fleet.THOROUGH
     explore(chk, cfgs, 14 if quick else 150, 45 if quick else 110, 3 if quick else 30)
+    constrained_best(chk, ["mem", "journal-symlink", "cached", "rdb"])
+    journal_rejected_batch(chk, 25 if quick else 400)
     try:
         alias_explore(chk, 60 if quick else 1000, 40 if quick else 120)
     except core.DriverBroken as e:
